@@ -86,7 +86,7 @@ def main():
     mp = os.path.join(out, "meta.json")
     if os.path.exists(mp):
         prev = json.load(open(mp))
-        for k in ("suite", "suite_broken", "needs"):
+        for k in ("suite", "suite_broken", "needs", "what", "note"):
             if k in prev and k not in meta:
                 meta[k] = prev[k]
         pc = prev.get("checks", {})
